@@ -112,8 +112,9 @@ class _STIXBase(collections.abc.Mapping):
             raise DependentPropertiesError(self.__class__, failed_dependency_pairs)
 
     def _check_object_constraints(self):
-        for m in self.get('granular_markings', []):
-            validate(self, m.get('selectors'))
+        if 'granular_markings' in self._properties:
+            for m in self.get('granular_markings', []):
+                validate(self, m.get('selectors'))
 
         if 'created' in self._properties and 'modified' in self._properties:
             created = self.get('created')
